@@ -11,6 +11,10 @@ use unic_locale::{LanguageIdentifier, Locale};
 pub const RULE: &str = "Domain: the (language, script, region) sweep of C06 (quick: all one- and two-component combinations, all full triples of the languages with two-component entries, a proptest sample of full triples; thorough: the whole universe) at function level, and proptest-generated LanguageIdentifiers / Locales (triple biased to CLDR keys and pruned values, 0-3 variants incl. duplicates, every extension shape) at method level. Oracle (library only, no CLDR data): maximize answers Some(v) => every given subtag is unchanged in v, v has language, script and region, v differs from the input, and maximize(v) is None; method returns true => same, plus variants and the whole extension part (ExtensionsMap ==, its string, every getter) untouched; returns false => value == original and prints the same; a second maximize() returns false and changes nothing. Non-trivial = maximize changed the identifier. Distinct by construction / hash set.";
 
 pub fn check_triple(h: &Handles, t: Triple, st: &mut Stats, mode: Count) {
+    netted(st, || h.case(t), 3, |st| check_triple_inner(h, t, st, mode));
+}
+
+fn check_triple_inner(h: &Handles, t: Triple, st: &mut Stats, mode: Count) {
     st.eval();
     let input = h.lib(t);
     let got = match lib_max(input) {
@@ -50,6 +54,10 @@ pub fn check_triple(h: &Handles, t: Triple, st: &mut Stats, mode: Count) {
 }
 
 pub fn check_parts(h: &Handles, p: &values::Parts, st: &mut Stats, mode: Count) {
+    netted(st, || values::parts_case(p), values::parts_case(p).to_string().len(), |st| check_parts_inner(h, p, st, mode));
+}
+
+fn check_parts_inner(h: &Handles, p: &values::Parts, st: &mut Stats, mode: Count) {
     st.eval();
     let case = || values::parts_case(p);
     let size = case().to_string().len();
